@@ -21,9 +21,13 @@
 (*   TrackChecksDown   a connection accepted concurrently with Shutdown is *)
 (*                     not served (FALSE: it is tracked after Shutdown     *)
 (*                     finished scanning and stays open)                   *)
+(*   UnmarkAfterWrite  a request counts as being handled until its reply   *)
+(*                     has been written (FALSE: only until the handler     *)
+(*                     returns - Shutdown can close the connection under   *)
+(*                     the pending reply and still report success)         *)
 (***************************************************************************)
 EXTENDS Integers, Sequences, FiniteSets, TLC, Json
-CONSTANTS K, CloseGuardOwn, CancelWakesAccept, ShutdownClaims, TrackChecksDown, Emit
+CONSTANTS K, CloseGuardOwn, CancelWakesAccept, ShutdownClaims, TrackChecksDown, UnmarkAfterWrite, Emit
 
 Conns == 1..K
 
@@ -182,16 +186,25 @@ ConnMark(c) ==
     /\ H("conn", c)
     /\ UnchangedConnRest /\ UNCHANGED <<cli, sent, delivered, sock, started, mu, crash, closeCb>>
 
-\* handler runs and the reply is written                             hook conn.wrote / conn.writefail
+\* the handler runs (ReceiveRead); the goroutine then enters the transport's Write      gate io.write
+\* (UnmarkAfterWrite = FALSE: the request is declared finished as soon as the handler is back)
 ConnHandle(c) ==
     /\ cpc[c] = "marked"
     /\ started' = [started EXCEPT ![c] = started[c] + 1]
+    /\ cpc' = [cpc EXCEPT ![c] = "handled"]
+    /\ ibh' = IF UnmarkAfterWrite THEN ibh ELSE [ibh EXCEPT ![c] = FALSE]
+    /\ H("conn", c)
+    /\ UnchangedConnRest /\ UNCHANGED <<cli, sent, delivered, sock, mu, crash, closeCb>>
+
+\* conn.Write(reply)                                                  hook conn.wrote / conn.writefail
+ConnWrite(c) ==
+    /\ cpc[c] = "handled"
     /\ IF sock[c] = "open"
        THEN /\ delivered' = [delivered EXCEPT ![c] = delivered[c] + 1]
             /\ cpc' = [cpc EXCEPT ![c] = "wrote"]
-       ELSE /\ cpc' = [cpc EXCEPT ![c] = "exit1"] /\ UNCHANGED delivered        \* write fails, isBeingHandled stays set
+       ELSE /\ cpc' = [cpc EXCEPT ![c] = "exit1"] /\ UNCHANGED delivered        \* write fails, isBeingHandled stays as it is
     /\ H("conn", c)
-    /\ UnchangedConnRest /\ UNCHANGED <<cli, sent, sock, ibh, mu, crash, closeCb>>
+    /\ UnchangedConnRest /\ UNCHANGED <<cli, sent, sock, ibh, started, mu, crash, closeCb>>
 
 \* isBeingHandled.Store(false)                                       hook conn.unmark
 ConnUnmark(c) ==
@@ -287,12 +300,12 @@ Quiescent ==
 Next ==
     \/ \E c \in Conns : Dial(c) \/ Send(c) \/ Hangup(c)
     \/ Cancel \/ AcceptConn \/ AcceptFail \/ CancelWake \/ AcceptCb \/ CtxCheck \/ TrackAdd
-    \/ \E c \in Conns : ConnLeave(c) \/ ConnRead(c) \/ ConnMark(c) \/ ConnHandle(c) \/ ConnUnmark(c) \/ ConnClose(c) \/ ConnUntrack(c) \/ ConnCloseCb(c)
+    \/ \E c \in Conns : ConnLeave(c) \/ ConnRead(c) \/ ConnMark(c) \/ ConnHandle(c) \/ ConnWrite(c) \/ ConnUnmark(c) \/ ConnClose(c) \/ ConnUntrack(c) \/ ConnCloseCb(c)
     \/ SdStart \/ (\E c \in Conns : SdCheck(c)) \/ SdClose \/ SdPassEnd \/ SdTimeout
     \/ (Quiescent /\ UNCHANGED vars)
 
 AccSteps == AcceptConn \/ AcceptFail \/ CancelWake \/ AcceptCb \/ CtxCheck \/ TrackAdd
-ConnSteps(c) == ConnLeave(c) \/ ConnRead(c) \/ ConnMark(c) \/ ConnHandle(c) \/ ConnUnmark(c) \/ ConnClose(c) \/ ConnUntrack(c) \/ ConnCloseCb(c)
+ConnSteps(c) == ConnLeave(c) \/ ConnRead(c) \/ ConnMark(c) \/ ConnHandle(c) \/ ConnWrite(c) \/ ConnUnmark(c) \/ ConnClose(c) \/ ConnUntrack(c) \/ ConnCloseCb(c)
 SdSteps == (\E c \in Conns : SdCheck(c)) \/ SdClose \/ (SdPassEnd /\ sdAllIdle) \/ SdTimeout
 
 Spec == Init /\ [][Next]_vars /\ WF_vars(AccSteps) /\ (\A c \in Conns : WF_vars(ConnSteps(c))) /\ WF_vars(SdSteps)
